@@ -50,6 +50,7 @@ type Report struct {
 	Analysed    map[string]interface{}
 	CheckerCmd  string
 	VerifDir    string
+	ControlsDir string
 	Quiet       bool
 }
 
@@ -57,7 +58,7 @@ func New(prop, tier, level, verifDir string) *Report {
 	seed := 0
 	fmt.Sscanf(os.Getenv("VERIF_SEED"), "%d", &seed)
 	return &Report{Prop: prop, Tier: tier, Level: level, Seed: seed, Start: time.Now(),
-		Analysed: map[string]interface{}{}, VerifDir: verifDir,
+		Analysed: map[string]interface{}{}, VerifDir: verifDir, ControlsDir: filepath.Join(verifDir, "controls"),
 		CheckerCmd: fmt.Sprintf("./run.sh %s %s", prop, tier)}
 }
 
@@ -181,8 +182,11 @@ func (r *Report) Finish() int {
 			nDis++
 		}
 	}
-	if !r.Quiet {
+	{
 		for _, o := range r.Obls {
+			if r.Quiet && o.Status == Discharged {
+				continue
+			}
 			tag := "ok  "
 			switch o.Status {
 			case Violated:
